@@ -27,6 +27,51 @@ theorem C20_vectorize_guard :
     ∀ n ∈ vectorizeForbiddenBackends, ∀ s ∈ solverUniverse,
       mustRaise { backend := n, solver := s, vectorize := true, delay := .none, sparseJacobian := false } = true := by decide +kernel
 
+/-! ### the ring-buffer requirement of a network with any number of connections -/
+
+theorem ringFlag_sticky (f : Bool) (cs : List ConnKind) : ringFlag true f cs = (f || cs.any (· == .ring)) := by
+  induction cs generalizing f with
+  | nil => simp [ringFlag]
+  | cons c cs ih => simp [ringFlag, ih, Bool.or_assoc]
+
+/-- the flag found in the current source is the sticky one -/
+theorem C20_flag_sticky : ringFlagSticky = true := by decide
+
+/-- **Order independence**: the requirement recorded for a network does not depend on the order in which its connections are declared
+or processed. -/
+theorem C20_ring_flag_order (cs cs' : List ConnKind) (h : cs.Perm cs') : ringFlag ringFlagSticky false cs = ringFlag ringFlagSticky false cs' := by
+  rw [C20_flag_sticky, ringFlag_sticky, ringFlag_sticky]
+  congr 1
+  rw [Bool.eq_iff_iff]
+  simp only [List.any_eq_true]
+  constructor
+  · rintro ⟨x, hx, hr⟩; exact ⟨x, h.mem_iff.mp hx, hr⟩
+  · rintro ⟨x, hx, hr⟩; exact ⟨x, h.mem_iff.mpr hx, hr⟩
+
+/-- **Every network with a ring-buffer connection is refused** by every backend without in-place buffers under a fixed-step solver — for any
+number of further connections of any kind, before or after it. -/
+theorem C20_ring_anywhere_raises (b : BackendT) (s : String) (hs : fixedStep s = true) (hb : b.edgeDelayBuffer = false)
+    (cs : List ConnKind) (h : ConnKind.ring ∈ cs) : mustRaiseConns b s cs = true := by
+  unfold mustRaiseConns
+  rw [C20_flag_sticky, ringFlag_sticky, hs, hb]
+  have : cs.any (· == ConnKind.ring) = true := List.any_eq_true.mpr ⟨.ring, h, by decide⟩
+  simp [this]
+
+/-- and a network without one is not refused on these grounds -/
+theorem C20_no_ring_not_raised (b : BackendT) (s : String) (cs : List ConnKind) (h : ConnKind.ring ∉ cs) : mustRaiseConns b s cs = false := by
+  unfold mustRaiseConns
+  rw [C20_flag_sticky, ringFlag_sticky]
+  have : cs.any (· == ConnKind.ring) = false := by
+    rw [List.any_eq_false]; intro x hx hr
+    have : x = .ring := by simpa using hr
+    exact h (this ▸ hx)
+  simp [this]
+
+/-- why the flag has to be sticky: with "the last delayed connection wins" a ring buffer declared before a cascade is forgotten -/
+theorem C20_ring_flag_last_wins_counterexample :
+    ringFlag false false [.ring, .cascade] = false ∧ ringFlag true false [.ring, .cascade] = true
+      ∧ ringFlag false false [.cascade, .ring] = true := by decide
+
 /-- Non-vacuity: the tables are non-trivial (at least four backends, one of which lacks the ring buffer and one solver that not all support) -/
 example : 4 ≤ modelled.length ∧ (backends.any (fun b => !b.edgeDelayBuffer)) = true
     ∧ (modelled.any (fun b => !(b.supported.contains "heun"))) = true := by decide +kernel
